@@ -114,7 +114,18 @@ theorem byParty_law (o al : Ev) (a : Args) (hall : takesAll al = true) (hfit : a
   simp only [takesAll, Bool.and_eq_true] at hall
   have := (agree_byParty (agree_tol (takes o) (eval o)) (agree_tol (takes al) (eval al))
     hall.1.1 hall.1.2 hall.2).onFits a hfit
-  simpa [eval, acceptsPrevGains_faithful, acceptsSeats_faithful] using this
+  simpa [eval, acceptsPrevGains_faithful, acceptsSeats_faithful, acceptsMaxSeats_faithful] using this
+
+/-- the same for an allocator that takes only part of (prev_gains, max_seats) — possible since 5bf2df2, each
+    is handed over only where accepted — on every call whose gains have a column for every party -/
+theorem byParty_law_columns (o al : Ev) (a : Args) (hs : (takes al).seats = true)
+    (hp : ∀ k, ∃ x, partyColumn (a.prev.getD (.dict [])) k = .ok x)
+    (hm : ∀ k, ∃ x, partyColumn (a.max.getD (.dict [])) k = .ok x)
+    (hfit : a.fits allSig = true) :
+    eval (.byParty o (some al)) a = byPartyLaw (tol (takes o) (eval o)) (tol (takes al) (eval al)) a := by
+  have := byParty_eq_of_columns (agree_tol (takes o) (eval o)) (agree_tol (takes al) (eval al)) hs a hp hm
+  rw [Args.restrict_of_fits a allSig hfit] at this
+  simpa [eval, acceptsPrevGains_faithful, acceptsSeats_faithful, acceptsMaxSeats_faithful] using this
 
 theorem evalList_eq_map (rs : List Ev) : evalList rs = rs.map eval := by
   induction rs with
@@ -372,21 +383,37 @@ theorem fix_e582ee8_byParty_seatless_now :
 
 /-- … it always did (`overallSeats := true`) -/
 theorem fix_e582ee8_byParty_seatless_before_witness :
-    byPartyImpl true (acceptsPrevGains haT) (eval (.fixedSeatCount haT (.num 3))) (eval haT) argsByPartyNone
+    byPartyImplOld true (acceptsPrevGains haT) (eval (.fixedSeatCount haT (.num 3))) (eval haT) argsByPartyNone
       = .error eType := by
   decide +kernel
 
-/-- STILL OPEN: ByParty's ALLOCATOR branch was not changed by e582ee8: `max_seats` goes with `prev_gains` to
-    every allocator that accepts those (outside `WellFormed`: the allocator does not take `max_seats`) -/
+/-- repaired by 5bf2df2: ByParty hands `max_seats` to its allocator only if the allocator accepts it (here
+    the allocator accepts `prev_gains`, through Conditioned, but not `max_seats`); the tree is outside
+    `WellFormed` (the allocator is not a full distributor), the call is covered by `byParty_law_columns` … -/
 def treeByPartyMax : Ev :=
   .byParty haT (some (.postConverted (.conditioned (thrT 0) plurT 1) (.selectionToDistribution (.num 1))))
 def argsByPartyMax : Args :=
   { votes := nested [(100, [(0, 5), (1, 1)]), (101, [(0, 3), (1, 4)])], n := some (.num 2) }
 
-theorem byParty_max_seats_forced_witness :
-    WellFormed treeByPartyMax = false
-    ∧ eval treeByPartyMax argsByPartyMax = .error eType
-    ∧ isOk (denote treeByPartyMax argsByPartyMax) = true := by
+theorem fix_5bf2df2_byParty_max_seats_now :
+    argsByPartyMax.fits (takes treeByPartyMax) = true
+    ∧ eval treeByPartyMax argsByPartyMax = .ok (.dict [(.cand 100, sv [(0, 1)]), (.cand 101, sv [(1, 1)])])
+    ∧ denote treeByPartyMax argsByPartyMax = .ok (.dict [(.cand 100, sv [(0, 1)]), (.cand 101, sv [(1, 1)])]) := by
+  decide +kernel
+
+/-- non-vacuity of the column hypotheses of `byParty_law_columns` for this call -/
+example : (takes (.postConverted (.conditioned (thrT 0) plurT 1) (.selectionToDistribution (.num 1)))).seats = true
+    ∧ (∀ k, ∃ x, partyColumn (argsByPartyMax.prev.getD (.dict [])) k = .ok x)
+    ∧ (∀ k, ∃ x, partyColumn (argsByPartyMax.max.getD (.dict [])) k = .ok x) :=
+  ⟨by decide +kernel, fun k => partyColumn_ok_of_nested [] (by simp) k,
+   fun k => partyColumn_ok_of_nested [] (by simp) k⟩
+
+/-- … it went with `prev_gains` (Plurality got `max_seats`) -/
+theorem fix_5bf2df2_byParty_max_seats_before_witness :
+    byPartyImplOld (acceptsSeats haT)
+        (acceptsPrevGains (.postConverted (.conditioned (thrT 0) plurT 1) (.selectionToDistribution (.num 1))))
+        (eval haT) (eval (.postConverted (.conditioned (thrT 0) plurT 1) (.selectionToDistribution (.num 1))))
+        argsByPartyMax = .error eType := by
   decide +kernel
 
 /-- non-vacuity of `byParty_law`: overall D'Hondt on the totals, each party's seats split over the constituencies -/
